@@ -1270,6 +1270,17 @@ def corpus_shape(ctx):
             break
         cur = op_place(d[3]["op"])
     if tok is None:
+        # identified by what it receives: the Vec into which Word values are pushed
+        from r_scorer import table_var as _tv
+        cands = set()
+        for pb, pt in calls_named(fa, "push"):
+            if len(pt["args"]) > 1 and "Word" in show(S.operand(pt["args"][1]))[:40]:
+                v = _tv(fa, pt["args"][0])
+                if v is not None:
+                    cands.add(v)
+        if len(cands) == 1:
+            tok = cands.pop()
+    if tok is None:
         raise EngineError("CORPUS: the pending token list was not identified")
     # loop header: the lines() iterator's next
     def over_lines(t):
@@ -1329,7 +1340,8 @@ def corpus_shape(ctx):
     for b, t in fa.calls():
         if {strip_generics(x).rsplit("::", 1)[-1] for x in callee_paths(t)} & {"clear", "take"} and t["args"]:
             a = E.ap_operand(fa, t["args"][0])
-            if a is not None and a.root == ("local", tok) and not a.proj:
+            from r_scorer import table_var as _tv2
+            if (a is not None and a.root == ("local", tok) and not a.proj) or _tv2(fa, t["args"][0]) == tok:
                 renew.add(b)
     if guard is None:
         return
@@ -1344,7 +1356,15 @@ def corpus_shape(ctx):
             break
     if arm is None:
         arm = gb
-    leak = H in fa.reachable(arm, avoid=renew)
+    # one trip round the line loop either appends a token or renews the list (the EOS arm, kept
+    # or dropped, wherever in the arm the renewal stands)
+    tok_pushes = set()
+    from r_scorer import table_var as _tv3
+    for pb, pt in calls_named(fa, "push"):
+        if pt["args"] and _tv3(fa, pt["args"][0]) == tok:
+            tok_pushes.add(pb)
+    hs_ = fa.term(H).get("t")
+    leak = H in fa.reachable(hs_, avoid=renew | tok_pushes) if hs_ is not None else True
     ctx.ob("FMT", "corpus|reader|pending-tokens-renewed", not leak and bool(renew), loc,
            "every path from the EOS line back to the next line replaces the pending token list "
            "(kept and dropped sentences alike)" if not leak and renew else
